@@ -60,15 +60,6 @@ impl Acc {
     }
 }
 
-/// Σ aᵢ·bᵢ in compensated arithmetic.
-pub fn dot(a: &[f64], b: &[f64]) -> f64 {
-    let mut acc = Acc::new();
-    for (x, y) in a.iter().zip(b) {
-        acc.add_prod(*x, *y);
-    }
-    acc.val()
-}
-
 /// Euclidean norm (inputs are moderate: no scaling needed, but guard against overflow anyway).
 pub fn norm2(a: &[f64]) -> f64 {
     let m = a.iter().fold(0.0f64, |m, x| if x.is_nan() { f64::INFINITY } else { m.max(x.abs()) });
